@@ -79,3 +79,15 @@ def fullParseR (cls : QCls) (ext : IExt) (lx : LExt) (rc : RCfg) (ic : ICfg) (ws
     | .ok ts => .ok (if ic.textJoinOn then textJoin ts else ts, s.refs, s.dups)
 
 end MdIt
+
+namespace MdIt
+
+/-- `MarkdownIt.parseInline(src, env)`: the `block` core rule in inline mode makes one `inline` token holding the whole source; the
+    rest of the core chain is the same -/
+def parseInlineM (cls : QCls) (ext : IExt) (lx : LExt) (ic : ICfg) (mn : Int) (d : Nat) (src : List Char) : Except PyErr (List Tok) :=
+  let tok : Tok := .mk "inline" "" 0 [] (some (0, 1)) 0 (some []) (String.ofList (normalize src)) "" "" [] false false
+  match (if ic.inlineOn then coreInline (inlineOf cls ext lx ic mn d) [tok] else .ok [tok]) with
+  | .error e => .error e
+  | .ok ts => .ok (if ic.textJoinOn then textJoin ts else ts)
+
+end MdIt
